@@ -29,7 +29,8 @@ pub enum Call {
         len: usize,
         period: u8,
         level: u32,
-        /// what happens to the frame before it is read back: 0 nothing, 1 cut short, 2 a payload byte changed
+        /// what happens to the frame before it is read back: 0 nothing, 1 cut short, 2 a payload byte changed, 3 the
+        /// header claims 4000 bytes more content than the stream holds
         #[serde(default)]
         damage: u8,
     },
@@ -39,6 +40,11 @@ pub enum Call {
 }
 
 const POOL: usize = 200;
+
+/// The processes that execute calls (histories and their fresh-process references alike) run in a zone WITH daylight
+/// saving (a POSIX rule, no zone files needed): local times then have a gap in spring and an ambiguous hour in autumn,
+/// and what DateTime<Local> decodes to must still not depend on what the thread decoded before.
+const CHILD_TZ: &str = "CET-1CEST,M3.5.0,M10.5.0/3";
 
 fn has_hash(t: &Ty) -> bool {
     t.any(&|x| matches!(x, Ty::HashSet(_) | Ty::HashMap(..)))
@@ -132,7 +138,7 @@ pub fn pool(seed: u64) -> Vec<Call> {
             Call::Dec { ty: tr.clone(), bytes }
         })
     });
-    let zip = (prop_oneof![Just(0usize), 1usize..40, 200usize..3000, Just(40_000usize)], 1u8..200, 0u32..10, prop_oneof![2 => Just(0u8), 1 => Just(1u8), 1 => Just(2u8)]).prop_map(|(len, period, level, damage)| Call::Zip { len, period, level, damage });
+    let zip = (prop_oneof![Just(0usize), 1usize..40, 200usize..3000, Just(40_000usize)], 1u8..200, 0u32..10, prop_oneof![2 => Just(0u8), 1 => Just(1u8), 1 => Just(2u8), 1 => Just(3u8)]).prop_map(|(len, period, level, damage)| Call::Zip { len, period, level, damage });
     // encodes above 64 KiB (buffers that are kept around have size policies), and decodes of streams that cite a string
     // or an object that THIS stream never introduced (tables that are kept around have contents)
     let a = |t: Ty| Arc::new(t);
@@ -186,6 +192,14 @@ pub fn pool(seed: u64) -> Vec<Call> {
     let strat = prop_oneof![4 => enc, 4 => dec, 2 => stream, 1 => graph, 6 => fam, 3 => zip, 1 => big, 2 => dangling, 2 => tz, 2 => dec_text, 2 => held];
     let mut r = runner(tag_seed(derive_seed(seed, "C18-pool", 0, 0), 0));
     let mut calls: Vec<Call> = (0..POOL).map(|_| strat.new_tree(&mut r).expect("pool").current()).collect();
+    // local times of a zone with daylight saving: summer, winter, inside the ambiguous hour of the last Sunday of
+    // October (02:00-03:00 occurs twice) and inside the gap of the last Sunday of March (02:00-03:00 does not exist)
+    for (y, m, d, h, mi) in [(2021, 7, 15, 12, 0), (2021, 1, 15, 12, 0), (2021, 10, 31, 2, 30), (2021, 10, 31, 2, 0), (2021, 10, 31, 2, 59), (2021, 3, 28, 2, 30), (2021, 10, 31, 3, 0), (2022, 10, 30, 2, 30)] {
+        let val = vmodel::Val::Tuple(vec![vmodel::Val::Date(y, m, d), vmodel::Val::Time(h, mi, 0, 0)]);
+        let bytes = vmodel::refcodec::ref_encode(&Ty::NaiveDateTime, &val).map(|f| f.bytes).unwrap_or_default();
+        calls.push(Call::Dec { ty: Ty::DtLocal, bytes: bytes.clone() });
+        calls.push(Call::Dec { ty: Ty::Vec(Arc::new(Ty::DtLocal)), bytes: [vec![2u8], bytes].concat() });
+    }
     // a declaration whose history names a field that is neither written nor listed as removed (made optional, later
     // turned into a transient field without the FieldMadeTransient step): every encode of it fails, the first one and
     // each later one (what is checked once per type must not be skipped afterwards)
@@ -250,7 +264,7 @@ fn topic(c: &Call) -> String {
             false
         });
         let found = name.into_inner();
-        found.unwrap_or_else(|| if t.any(&|x| matches!(x, Ty::Tz | Ty::DtTz)) { "time zones".into() } else if t.any(&|x| *x == Ty::Dedup) { "string table".into() } else { String::new() })
+        found.unwrap_or_else(|| if t.any(&|x| matches!(x, Ty::DtLocal)) { "local time".into() } else if t.any(&|x| matches!(x, Ty::Tz | Ty::DtTz)) { "time zones".into() } else if t.any(&|x| *x == Ty::Dedup) { "string table".into() } else { String::new() })
     }
     match c {
         Call::Enc(tv) if tv.ty == Ty::BigDecimal => "decimals".into(),
@@ -330,6 +344,17 @@ pub fn execute(c: &Call) -> String {
                     match damage {
                         1 => out.truncate(n - n / 3 - 1),
                         2 => out[n - 1 - n / 4] ^= 0x5a,
+                        3 => {
+                            // the header claims more content than the stream holds (the stored length is the first
+                            // var-int of the frame)
+                            let mut k = 0;
+                            while k < out.len() && out[k] & 0x80 != 0 {
+                                k += 1;
+                            }
+                            let mut lie = Vec::new();
+                            lie.write_var_u32((*len as u32).wrapping_add(4000));
+                            out.splice(0..(k + 1).min(out.len()), lie);
+                        }
                         _ => {}
                     }
                     let back = desert::SliceInput::new(&out).read_compressed();
@@ -502,7 +527,7 @@ pub fn child_main(seed: u64) -> Option<i32> {
 fn spawn_calls(seed: u64, calls: &[usize]) -> Result<Vec<String>, String> {
     let exe = std::env::current_exe().map_err(|e| e.to_string())?;
     let list = calls.iter().map(|c| c.to_string()).collect::<Vec<_>>().join(",");
-    let out = std::process::Command::new(exe).args(["C18", "--seed", &seed.to_string(), "--worker"]).env("VCHECK_C18_CALLS", &list).env_remove("VCHECK_SLOTS").output().map_err(|e| format!("INFRA: cannot start a child process: {e}"))?;
+    let out = std::process::Command::new(exe).args(["C18", "--seed", &seed.to_string(), "--worker"]).env("VCHECK_C18_CALLS", &list).env("TZ", CHILD_TZ).env_remove("VCHECK_SLOTS").output().map_err(|e| format!("INFRA: cannot start a child process: {e}"))?;
     if !out.status.success() {
         return Err(format!("child ended with {} on calls [{list}]: {}", out.status, String::from_utf8_lossy(&out.stderr).chars().take(300).collect::<String>()));
     }
